@@ -45,6 +45,10 @@ pub enum IOp {
     /// panics - `what`: 0 the user-validation method, 1 the store's lookup, 2 the store's write;
     /// the embedder catches the unwind and goes on using the instance
     Panics { op: u8, what: u8 },
+    /// not a ceremony: the store's record of A changes behind the authenticator's back (a store
+    /// that syncs with other devices) - 0 other hmac-secret secrets, 1 the presence-gated secret
+    /// gone, 2 counter + 100, 3 another private key, 4 no hmac-secret data at all
+    Synced(u8),
 }
 
 fn seeds() -> Vec<Passkey> {
@@ -138,6 +142,7 @@ where
         Err(e) => format!("err:{e:?}"),
     };
     match op {
+        IOp::Synced(_) => "synced".into(),
         IOp::GetUnusableKey => {
             let req = ga_request(RP, Some(vec![cred_id(4)]), false, true, true, false, None);
             let r = match poll_n(auth.get_assertion(req), None) {
@@ -243,6 +248,31 @@ where
     let store = SwitchStore::new(store);
     let mut long_lived = mk_log(store.clone(), false, log.clone());
     for (k, op) in hist.iter().enumerate() {
+        if let IOp::Synced(what) = op {
+            // applied to the store directly, in both runs alike
+            let mut st = store.clone();
+            let list = [descriptor(&cred_id(1))];
+            let found = match poll_n(st.find_credentials(Some(&list), RP), None) {
+                Polled::Done { value: Ok(v), .. } => v.into_iter().next(),
+                _ => None,
+            };
+            if let Some(mut p) = found {
+                match what {
+                    0 => p.extensions.hmac_secret = Some(passkey_types::StoredHmacSecret { cred_with_uv: vec![0x5A; 32], cred_without_uv: Some(vec![0xA5; 32]) }),
+                    1 => {
+                        if let Some(h) = p.extensions.hmac_secret.as_mut() {
+                            h.cred_without_uv = None;
+                        }
+                    }
+                    2 => p.counter = p.counter.map(|c| c + 100),
+                    3 => p.key = seeded(&Seed { n: 9, rp: RP.into(), handle: None, counter: None, hmac: None }).key.clone(),
+                    _ => p.extensions.hmac_secret = None,
+                }
+                let _ = poll_n(st.update_credential(p), None);
+            }
+            out.push("synced".into());
+            continue;
+        }
         let answer = match op {
             IOp::Denied(_) => Some(UvOutcome::Err(0x27)),
             IOp::Panics { what: 0, .. } => Some(UvOutcome::Err(UV_PANICS)),
@@ -345,6 +375,7 @@ fn op_name(op: &IOp) -> &'static str {
         IOp::GetUnusableKey => "get_assertion(unusable key)",
         IOp::GetUpdateFails => "get_assertion(update fails)",
         IOp::Panics { .. } => "user-code-panics",
+        IOp::Synced(_) => "store-synced",
     }
 }
 
